@@ -180,14 +180,16 @@ pub fn secret_forms(src: &mut Src) -> String {
     for i in 0..n {
         s.push('/');
         if Some(i) == multi_at {
-            let m = src.range(2, 3);
+            let m = src.range(2, 4);
             s.push('<');
             let base = src.range(0, 5);
+            let repeats = src.chance(1, 3);
             for j in 0..m {
                 if j > 0 {
                     s.push(';');
                 }
-                s.push_str(&(base + j).to_string());
+                let v = if repeats { base + src.below(2) } else { base + j };
+                s.push_str(&v.to_string());
             }
             s.push('>');
         } else {
@@ -314,7 +316,44 @@ where
 impl Check for C10 {
     fn id(&self) -> &'static str { "C10" }
     fn rule(&self) -> String {
-        "lanes: `miniscript` (4 contexts, String keys, every fragment incl. sugar and expr_raw_pkh; the written AST must be what is parsed, print->parse gives the same mirror AST and the same string; sugared and desugared spellings parse to equal ASTs with equal scripts), `descriptor` (all output types, hex / origin / xpub / wildcard / multipath keys, taproot trees; `{:#}` == string without checksum; printed checksum == own BIP380 implementation), `keys` (DescriptorPublicKey / DescriptorSecretKey strings with origins, h and ' markers, hardened steps, wildcards, multipath with repeated alternatives; mirror = derived Debug of the value), `policy` (Concrete with weights / Semantic), `wallet` (WalletPolicy from descriptor and from template), `strings` (grammar-aware mutations of valid strings: anything accepted must print to a string that re-parses to the same value and is a fixed point), `checksum` (the checksum Engine / verify_checksum on arbitrary strings over the whole BIP380 input alphabet vs the own implementation, with one substitution; in checksummed descriptors 1-2 arbitrary character substitutions, or <= 4 substitutions within the first charset group, in checksummed strings <= 500 chars: verify_checksum and Descriptor::from_str must reject). Non-trivial = values with >= 3 nodes or a key with origin/path/multipath; every substitution case; accepted mutants.".into()
+        "lanes: `miniscript` (4 contexts, String keys, every fragment incl. sugar and expr_raw_pkh; the written AST must be what is parsed, print->parse gives the same mirror AST and the same string; sugared and desugared spellings parse to equal ASTs with equal scripts), `descriptor` (all output types, hex / origin / xpub / wildcard / multipath keys, taproot trees; `{:#}` == string without checksum; printed checksum == own BIP380 implementation), `keys` (DescriptorPublicKey / DescriptorSecretKey strings with origins, h and ' markers, hardened steps, wildcards, multipath with repeated alternatives; mirror = derived Debug of the value; for multipath secret keys to_public() commutes with into_single_keys() on the derived public keys), `policy` (Concrete with weights / Semantic), `wallet` (WalletPolicy from descriptor and from template), `strings` (grammar-aware mutations of valid strings: anything accepted must print to a string that re-parses to the same value and is a fixed point), `checksum` (the checksum Engine / verify_checksum on arbitrary strings over the whole BIP380 input alphabet vs the own implementation, with one substitution; in checksummed descriptors 1-2 arbitrary character substitutions, or <= 4 substitutions within the first charset group, in checksummed strings <= 500 chars: verify_checksum and Descriptor::from_str must reject). Non-trivial = values with >= 3 nodes or a key with origin/path/multipath; every substitution case; accepted mutants.".into()
+    }
+    fn extra(&self, _tier: Tier, st: &mut crate::runner::Stats, _known: &dyn Fn(&str) -> bool, _threads: usize) -> Result<serde_json::Value, Failure> {
+        // values at the nesting limit: whatever the AST entry point builds must print to a
+        // string that parses back to the same value (heights 395..=405 around the limit of 402)
+        let mut built = 0usize;
+        for h in 395usize..=405 {
+            for shape in 0..3 {
+                let mut node = Node::Check(Box::new(Node::PkK("A".into())));
+                for i in 0..h.saturating_sub(2) {
+                    node = match shape {
+                        0 => Node::AndV(Box::new(Node::Verify(Box::new(Node::Check(Box::new(Node::PkK(format!("K{}", i % 7))))))), Box::new(node)),
+                        1 => Node::OrI(Box::new(Node::False), Box::new(node)),
+                        _ => Node::AndOr(Box::new(Node::Check(Box::new(Node::PkK(format!("K{}", i % 7))))), Box::new(node), Box::new(Node::False)),
+                    };
+                }
+                st.evaluations += 1;
+                let text = ast::print(&node, false);
+                let ms = match ms_string_from_node::<Tap>(&node) {
+                    Ok(m) => m,
+                    Err(_) => continue,
+                };
+                built += 1;
+                let printed = ms.to_string();
+                match Miniscript::<String, Tap>::from_str_with_validation_params(&printed, &miniscript::ValidationParams::MAX) {
+                    Ok(back) => {
+                        if back != ms || back.to_string() != printed {
+                            return fail("boundary-roundtrip-differs", format!("a miniscript of {} levels (shape {}) re-parses to a different value", h, shape));
+                        }
+                    }
+                    Err(e) => {
+                        return fail("boundary-print-unparseable", format!("from_ast builds a miniscript of {} levels (shape {}, {} bytes of text) whose printed form does not parse: {}", h, shape, text.len(), e));
+                    }
+                }
+            }
+        }
+        st.samples.push(format!("[boundary] {} values of 395..=405 levels built through from_ast print and re-parse to themselves", built));
+        Ok(serde_json::json!({"boundary_values_roundtripped": built}))
     }
     fn lanes(&self, tier: Tier) -> Vec<(&'static str, usize, usize)> {
         match tier {
@@ -438,6 +477,34 @@ impl Check for C10 {
                 let t = if secret { secret_forms(src) } else { key_forms(src) };
                 rep.desc = t.clone();
                 if secret {
+                    // turning a multipath secret key into public keys commutes with splitting it
+                    // into its alternatives (compared on the derived public keys)
+                    if let Ok(sk) = DescriptorSecretKey::from_str(&t) {
+                        let secp = secp256k1::Secp256k1::new();
+                        if sk.is_multipath() {
+                            if let Ok(pk_multi) = sk.to_public(&secp) {
+                                let a: Vec<DescriptorPublicKey> = pk_multi.into_single_keys();
+                                let b2: Vec<DescriptorSecretKey> = sk.clone().into_single_keys();
+                                if a.len() != b2.len() {
+                                    return fail("secret-multipath/len", format!("`{}`: {} public alternatives, {} secret alternatives", t, a.len(), b2.len()));
+                                }
+                                for (j, (pa, sb)) in a.iter().zip(b2.iter()).enumerate() {
+                                    if let Ok(pb) = sb.to_public(&secp) {
+                                        for idx in [0u32, 5] {
+                                            let ka = pa.clone().at_derivation_index(idx).ok().map(|k| k.derive_public_key(&secp));
+                                            let kb = pb.clone().at_derivation_index(idx).ok().map(|k| k.derive_public_key(&secp));
+                                            if let (Some(ka), Some(kb)) = (ka, kb) {
+                                                if ka != kb {
+                                                    return fail("secret-multipath/to-public", format!("`{}`: alternative {} of to_public() derives {:?} at index {}, to_public() of alternative {} derives {:?}", t, j, ka, idx, j, kb));
+                                                }
+                                                rep.class("secret-multipath-compared");
+                                            }
+                                        }
+                                    }
+                                }
+                            }
+                        }
+                    }
                     let nt = string_fixed_point("secret-key", &t, &|s| DescriptorSecretKey::from_str(s).ok(), |k| format!("{:?}", k), rep)?;
                     if nt {
                         rep.nontrivial_by(&t);
@@ -498,7 +565,10 @@ impl Check for C10 {
                     c.xpub_chance = 3;
                     c
                 });
-                let t = d.map_keys(&mut |k| templatize(k, 1, 2, src));
+                // BIP388 key placeholders stand for `/<M;N>/*` (unhardened wildcard) only: a
+                // hardened wildcard must not be turned into a template
+                let wild = *src.pick(&[1u8, 1, 1, 2]);
+                let t = d.map_keys(&mut |k| templatize(k, wild, 2, src));
                 let text = t.print(true);
                 rep.desc = text.clone();
                 let desc = match Descriptor::<DescriptorPublicKey>::from_str(&text) {
@@ -516,6 +586,60 @@ impl Check for C10 {
                     }
                 };
                 let templ = wp.to_string();
+                if wild == 2 && t.all_keys().iter().any(|k| k.ends_with("*h") || k.ends_with("*'")) {
+                    return fail("wallet-template-hardened-wildcard", format!("`{}` has a hardened wildcard but is turned into the template `{}` (placeholders denote unhardened wildcards)", text, templ));
+                }
+                // own template: keys numbered by first appearance, `/<0;1>/*` spelled `/**`
+                {
+                    let mut order: Vec<String> = Vec::new();
+                    let own = t.map_keys(&mut |k| {
+                        if !k.contains("pub") {
+                            return k.to_string();
+                        }
+                        let xi = k.find("pub").unwrap_or(0);
+                        let slash = k[xi..].find('/').map(|p| p + xi).unwrap_or(k.len());
+                        let (base, suffix) = k.split_at(slash);
+                        let idx = match order.iter().position(|b| b == base) {
+                            Some(i) => i,
+                            None => {
+                                order.push(base.to_string());
+                                order.len() - 1
+                            }
+                        };
+                        let suffix = match suffix.strip_prefix("/<").and_then(|r| r.strip_suffix(">/*")) {
+                            Some(inner) => {
+                                let parts: Vec<&str> = inner.split(';').collect();
+                                match (parts.len(), parts.first().and_then(|a| a.parse::<u32>().ok()), parts.get(1).and_then(|b| b.parse::<u32>().ok())) {
+                                    // BIP388: `/**` abbreviates exactly `/<0;1>/*`
+                                    (2, Some(0), Some(1)) => "/**".to_string(),
+                                    _ => suffix.to_string(),
+                                }
+                            }
+                            None => suffix.to_string(),
+                        };
+                        format!("@{}{}", idx, suffix)
+                    });
+                    // (how placeholders are numbered when one xpub occurs with two derivations is
+                    // the library's choice: compare modulo the indices)
+                    let strip = |x: &str| -> String {
+                        let mut out = String::new();
+                        let mut it = x.chars().peekable();
+                        while let Some(c) = it.next() {
+                            out.push(c);
+                            if c == '@' {
+                                while it.peek().map(|d| d.is_ascii_digit()).unwrap_or(false) {
+                                    it.next();
+                                }
+                            }
+                        }
+                        out
+                    };
+                    let own_text = strip(&own.print(true));
+                    let templ = strip(&templ);
+                    if own.all_keys().iter().all(|k| k.starts_with('@')) && own_text != templ {
+                        return fail("wallet-template-differs", format!("template of `{}` is `{}`, expected `{}`", text, templ, own_text));
+                    }
+                }
                 match wp.clone().into_descriptor() {
                     Ok(back) => {
                         if glue::mdesc_from_lib(&back).ok() != glue::mdesc_from_lib(&desc).ok() || back.to_string() != desc.to_string() {
@@ -755,4 +879,25 @@ impl Check for C10 {
             }
         }
     }
+}
+
+
+/// String-keyed library value of a mirror node through `Miniscript::from_ast` only.
+fn ms_string_from_node<C: miniscript::ScriptContext>(n: &Node) -> Result<Miniscript<String, C>, String> {
+    use miniscript::miniscript::decode::Terminal;
+    use std::sync::Arc;
+    let sub = |x: &Node| -> Result<Arc<Miniscript<String, C>>, String> { Ok(Arc::new(ms_string_from_node::<C>(x)?)) };
+    let t: Terminal<String, C> = match n {
+        Node::True => Terminal::True,
+        Node::False => Terminal::False,
+        Node::PkK(k) => Terminal::PkK(k.clone()),
+        Node::PkH(k) => Terminal::PkH(k.clone()),
+        Node::Check(x) => Terminal::Check(sub(x)?),
+        Node::Verify(x) => Terminal::Verify(sub(x)?),
+        Node::AndV(x, y) => Terminal::AndV(sub(x)?, sub(y)?),
+        Node::OrI(x, y) => Terminal::OrI(sub(x)?, sub(y)?),
+        Node::AndOr(x, y, z) => Terminal::AndOr(sub(x)?, sub(y)?, sub(z)?),
+        _ => return Err("unsupported".into()),
+    };
+    Miniscript::from_ast(t).map_err(|e| e.to_string())
 }
